@@ -12,18 +12,24 @@ Trusted: Rust's borrow rules (a callback of arena `A` cannot hold `&mut A`, `A` 
 namespace GcArena.C03s
 open GcArena.CallGraphM GcArena.Generated.CallGraph GcArena.CallGraphDefs
 
-/-- The extraction classified everything it met, and each function named in the statements below
-exists exactly once in the graph (a rename makes the check fail rather than pass vacuously). -/
+/-- The extraction classified everything it met, and the structural anchors of the statements
+below exist (so that a refactoring makes the check fail rather than pass vacuously): at least one
+collector driver, at least one node calling a primitive destructor outside the builder `Drop`
+impls, at least one builder `Drop` impl and one callback-side entry point.  No function *name* is
+required (pinned identifiers: the type names `Arena`, `MarkedArena`, `Context`, and the
+`…Builder` suffix of the builder types). -/
 theorem names_present :
     unclassified = [] ∧ fns.length = adj.length ∧
-    destructiveTags.all (fun t => count (maskWhere fns (fun f => f.tag == t)) fns.length == 1) = true ∧
+    count doCollection fns.length ≥ 1 ∧
+    (maskOf primDestructive &&& (maskOf primDestructive ^^^ builderDrops)) ≠ 0 ∧
     builderDrops ≠ 0 ∧ callbackRoots ≠ 0 := by decide +kernel
 
 /-- From no function that client code can call (or implicitly run) while a callback is running
 — everything public except `&mut self` / by-value methods of `Arena`, everything on `MarkedArena`,
-and the constructors of *other* arenas — can `do_collection`, `sweep_one`, the arena destructor,
-`GcPtr::drop_in_place` / `dealloc`, the vtable's `drop_value` / `dealloc` entries, or any function
-that directly calls a primitive destructor / deallocator be reached.  The outgoing edges of the
+and the constructors of *other* arenas — can the collector driver (`do_collection`) or any function that directly calls a primitive
+destructor / deallocator (the vtable's `drop_value` / `dealloc` entries among them — hence
+`sweep_one`, the arena destructor, `GcPtr::drop_in_place` / `dealloc`, whatever they are called)
+be reached.  The outgoing edges of the
 builder types' `Drop` impls are cut: they release a block that was never linked (property C18). -/
 theorem callgraph (r d : Nat) (hr : callbackRoots.testBit r = true)
     (hd : destructive.testBit d = true) : ¬ Reach adj builderDrops r d := by
@@ -53,19 +59,34 @@ theorem collection_needs_exclusive_arena (a d : Nat) (hd : doCollection.testBit 
 
 /-- `MarkedArena` holds `&mut Arena`, and is only constructed by `&mut self` methods of `Arena`. -/
 theorem marked_arena_exclusive :
-    markedArenaField = "&'a mut Arena<R>" ∧ constructsMarkedArena ≠ [] ∧
+    markedArenaField = "&mut Arena" ∧ constructsMarkedArena ≠ [] ∧
     allIn fns (maskOf constructsMarkedArena) (fun f => f.selfKind == .arena && f.recv == .refMut) = true := by
   decide +kernel
 
 /-- Non-vacuity: the certificate is what `closure` computes from the roots; it is much larger than
 the root set (the callback side does reach the allocation / barrier / upgrade paths of the
-collector); and exactly seven functions reach `do_collection` (itself, the five `&mut self`
-collection methods of `Arena`, `MarkedArena::start_sweeping`). -/
+collector); and the driver is reached from somewhere (the `&mut self` collection methods of
+`Arena`, `MarkedArena::start_sweeping`). -/
 example :
     closure adj builderDrops callbackRoots 64 = callbackClosure ∧
     count callbackRoots fns.length ≥ 100 ∧
     count callbackClosure fns.length ≥ count callbackRoots fns.length + 100 ∧
-    count collectorClosure fns.length = 7 ∧ count destructive fns.length ≥ 6 := by
+    count collectorClosure fns.length ≥ 2 ∧ count destructive fns.length ≥ 3 := by
   decide +kernel
+
+/-! ## The clause, structural half
+
+"While a callback runs, no value of that arena is destructed and no allocation is released" — as
+far as a call graph can say it: nothing that client code can call or implicitly run during a
+callback reaches a destructor / deallocator call or the collector driver.  Not contained: that the
+extracted graph over-approximates the real calls (name resolution of the translator, trusted), and
+Rust's borrow rules excluding the `&mut Arena` / by-value entry points (trusted).  The dynamic half
+(`Props/C03`) is about the collector model. -/
+def callbacks_cannot_reach_reclamation_statement : Prop :=
+  ∀ r d : Nat, callbackRoots.testBit r = true → destructive.testBit d = true →
+    ¬ Reach adj builderDrops r d
+
+theorem callbacks_cannot_reach_reclamation : callbacks_cannot_reach_reclamation_statement :=
+  fun r d hr hd => callgraph r d hr hd
 
 end GcArena.C03s
